@@ -26,6 +26,7 @@ import HugrVerif.Gen.ValidityTables
 import HugrVerif.Proofs.Build
 import HugrVerif.Props.C04
 import HugrVerif.Props.C13
+import HugrVerif.Proofs.BuildLocalProg
 
 namespace HugrVerif.Props.C01
 open HugrVerif HugrVerif.Validate
@@ -686,5 +687,69 @@ example : (match base with
 end ExBuild
 
 end BuilderSteps
+
+/-! ## Builder side, program level: edge locality of every program of plain dataflow-graph builders
+
+  The step theorems above are lifted to whole programs for the sub-language `BuildLocal.InL` of the builder model's
+  command language (`Build.step`): `Dfg(...)`, `add_op` (any operation, any wires), `add_nested` (to any depth) and
+  `set_outputs`.  For every such program that runs without a builder call raising, every HUGR it has built
+  satisfies, for every link into a value port: the target has an ancestor-or-self with the same parent as the
+  source (rule R6.relation: the source is a sibling of an ancestor of the target), and if that ancestor is not the
+  target itself — the link enters a nested region — the state-order link from the source to that ancestor is present
+  (rule R6.order_edge).  No hypothesis on the program beyond membership in the sub-language: arbitrary
+  interleavings of the commands over any number of builders, wires used any number of times, nesting of any depth.
+  The proof is an invariant (`BuildLocal.BInv`: link-map invariant, free-list invariant and `LocInv` on every
+  store) shown for every store step the commands are made of (`Proofs/BuildLocal.lean`) and for every command
+  (`Proofs/BuildLocalProg.lean`), then an induction over the program. -/
+
+section ProgramLevel
+open HugrVerif.Build HugrVerif.Store HugrVerif.BuildLocal
+
+/-- **Every program of the plain dataflow-graph builders keeps every value edge local or accompanied by its
+    state-order edge** (R6.relation + R6.order_edge on the store of every HUGR the program has built). -/
+theorem dfg_programs_edge_locality (enc : String) (cmds : List Cmd) (st' : BuildState)
+    (hL : ∀ c ∈ cmds, InL c) (h : Build.run enc {} cmds = .ok st')
+    (hid : Nat) (s : St) (hs : st'.getHugr hid = .ok s) (l : Port × Port) (hl : l ∈ linksList s) (hv : 0 ≤ l.2.2) :
+    ∃ anc p, nodeParent s l.1.1 = .ok (some p) ∧ Anc s l.2.1 anc ∧ nodeParent s anc = .ok (some p) ∧
+      (anc ≠ l.2.1 → ((l.1.1, (-1 : Int)), (anc, (-1 : Int))) ∈ linksList s) :=
+  ((run_binv enc cmds {} st' hL binv_empty h).stores hid s hs).loc l hl hv
+
+/-- The same from any state that satisfies the invariant (programs continue each other). -/
+theorem dfg_programs_keep_invariant (enc : String) (cmds : List Cmd) (st st' : BuildState)
+    (hL : ∀ c ∈ cmds, InL c) (hb : BInv st) (h : Build.run enc st cmds = .ok st') : BInv st' :=
+  run_binv enc cmds st st' hL hb h
+
+/-- One command. -/
+theorem dfg_command_keeps_invariant (enc : String) (st st' : BuildState) (c : Cmd) (res : Result) (hc : InL c)
+    (hb : BInv st) (h : Build.step enc st c = .ok (st', res)) : BInv st' := step_binv enc st st' c res hc hb h
+
+namespace ExProg
+
+def B : Ty := .unitSum 2
+
+/-- `d0 = Dfg(Bool); with d0.add_nested() as d1: n = d1.add_op(Not, d0.inputs()[0]); d1.set_outputs(n[0]);
+    d0.set_outputs(d1[0])` — the wire from the outer Input into the nested region is non-local. -/
+def prog : List Cmd := [
+  .newDfg "d0" [B],
+  .addNested "d0" "d1" [],
+  .addOp "d1" "n" (.custom "Not" ⟨[B], [B], []⟩ "" "logic" []) [.inp "d0" 0] [],
+  .setOutputs "d1" [.idx (.var "n") 0],
+  .setOutputs "d0" [.idx (.builder "d1") 0]]
+
+/-- non-vacuity: the program is in the sub-language, runs, and its HUGR has the non-local value link
+    Input(1) → Not(6) with the order link Input(1) → nested DFG(3). -/
+example : ∀ c ∈ prog, InL c := by
+  intro c hc
+  simp only [prog, List.mem_cons, List.mem_nil_iff, or_false] at hc
+  rcases hc with rfl | rfl | rfl | rfl | rfl <;> exact True.intro
+
+example : (match Build.run "" {} prog with
+    | .ok st => (match st.getHugr 0 with | .ok s => some (linksList s) | .error _ => none)
+    | .error _ => none) =
+    some [((1, -1), (3, -1)), ((1, 0), (6, 0)), ((6, 0), (5, 0)), ((3, 0), (2, 0))] := by decide +kernel
+
+end ExProg
+
+end ProgramLevel
 
 end HugrVerif.Props.C01
